@@ -77,12 +77,13 @@ CHECKS = {
              'ticks_per_beat and, per track, exactly fix_end_of_track(track) - proved through the per-event lemma (running status coupling '
              'invariant between writer and reader), the size-counted reader loop, the chunk and the header. C07_roundtrip_normal: identity on '
              'files already ending in one end_of_track. C07_saved_fixed_point: the loaded form is storable, re-saves to the same bytes and '
-             're-loads to itself. Refusals: type-0 rule, bad time anywhere => ValueError, success of write_track implies all times are '
+             're-loads to itself. C07_fixed_point: for ARBITRARY byte strings that load (reader soundness: every event the reader returns is valid, every '
+             'decoded meta message passes its own checks and is in normal form) and whose loaded form can be saved, load(save(load(b))) is load(b) with '
+             'end_of_track normalised and every further round is the identity. Refusals: type-0 rule, bad time anywhere => ValueError, success of write_track implies all times are '
              'non-negative integers and no message is real-time. Model of writer and of the whole reader tied byte-for-byte to the '
              'implementation on generated files, unstorable variants and byte-level mutants.',
-        note='PARTIAL: (1) the fixed-point clause for ARBITRARY loadable byte strings (not produced by save) rests on the correspondence + oracle: '
-             'the theorem covers the saved form only; (2) utf-8 charset files are outside C07_roundtrip (covered by C17 theorems and by the '
-             'correspondence); (3) chunk bodies of 2^32 bytes or more and payloads above the reader limit of 1 000 000 bytes are excluded by '
+        note='PARTIAL: (1) utf-8 charset files are outside C07_roundtrip (covered by C17 theorems and by the '
+             'correspondence); (2) chunk bodies of 2^32 bytes or more and payloads above the reader limit of 1 000 000 bytes are excluded by '
              'explicit hypotheses. UnknownMetaMessage with a known type byte and header fields outside 16 bits are outside the property.',
         technique='Lean 4 proof (round trip by induction over events/tracks with a writer-reader coupling invariant) over a hand model of writer and reader; byte-exact differential correspondence incl. mutants',
         design='5 C07'),
